@@ -121,7 +121,7 @@ def record_traces(cases, pairs=None, sanitize=True):
 
 def trace_lines(tid, case, events, out, pair=2):
     nk, nth, ihmax, e = case
-    lines = [{"ev": "input", "tid": tid, "e": [int(x) for x in e]}]
+    lines = [{"ev": "input", "tid": tid, "e": [int(x) for x in e], "mode": 0, "lv": [], "cst": 0}]
     for ev in events:
         k = ev["ev"]
         if k in ("enter", "exit"):
@@ -138,6 +138,59 @@ def trace_lines(tid, case, events, out, pair=2):
             lines.append({"ev": "sweep", "a": ev["a"], "arr": ev["arr"]})
     lines.append({"ev": "out", "p": list(out[0]), "np": out[1], "pair": pair})
     return lines
+
+
+def level_trace_lines(tid, events, out=None):
+    """trace of a call on a floating-point spectrum (mode 1 of WatershedTrace): the recorded level map is the input,
+    the result is the recorded one (or, for calls made by somebody else, the last sweep) in C order."""
+    ent = events[0]
+    nk, nth = ent["a"], ent["b"]
+    imi = next((ev["arr"] for ev in events if ev["ev"] == "imi"), [])
+    cst = any(ev["ev"] == "const" for ev in events)
+    lines = [{"ev": "input", "tid": tid, "e": [], "mode": 1, "lv": imi, "cst": 1 if cst else 0}]
+    last = None
+    for ev in events:
+        k = ev["ev"]
+        if k == "const":
+            lines.append({"ev": "const"})
+        elif k == "pinit":
+            lines.append({"ev": "pinit", "a": ev["a"], "b": ev["b"], "c": ev["c"], "d": ev["d"]})
+        elif k in ("imi", "ind"):
+            lines.append({"ev": k, "arr": ev["arr"]})
+        elif k == "level":
+            lines.append({"ev": "level", "a": ev["a"], "b": ev["b"], "c": ev["c"], "d": ev["d"], "arr": ev["arr"]})
+        elif k == "sweep":
+            lines.append({"ev": "sweep", "a": ev["a"], "arr": ev["arr"]})
+            last = ev["arr"]
+        elif k == "exit":
+            npart = ev["a"]
+    if out is not None:
+        p, npart = list(out[0]), out[1]
+    elif cst:
+        p = [1] * (nk * nth)
+    else:
+        p = [last[(k // nth) + nk * (k % nth)] for k in range(nk * nth)]     # F-order work area -> C order
+    lines.append({"ev": "out", "p": p, "np": npart, "pair": 2})
+    return lines
+
+
+def split_events(path):
+    """H1 events of a trace file grouped per call (H2 wrapper events are skipped)."""
+    calls, cur = [], None
+    with open(path) as fh:
+        for line in fh:
+            try:
+                ev = json.loads(line)
+            except ValueError:
+                continue
+            if ev["ev"] in ("wenter", "wexit"):
+                continue
+            if ev["ev"] == "enter":
+                cur = [ev]
+                calls.append(cur)
+            elif cur is not None:
+                cur.append(ev)
+    return [c for c in calls if c[-1]["ev"] == "exit"]
 
 
 def validate_traces(ctx, groups, checkpost=True, label="trace", timeout=1500, parallel=6):
